@@ -49,23 +49,36 @@ def showOut (stamp : String) : Out → String
   | .loopEnd => s!"LE@{stamp};"
   | .deviceSwitch t n => s!"D@{stamp},{t},{hexStr n};"
 
-def showOuts (stamp : String) (os : List Out) : String :=
-  if os.isEmpty then "-" else String.join (os.map (showOut stamp))
+/-- event log of one op: only the first 5000 entries are kept, the rest is counted (as in the harness) -/
+structure Acc where
+  s : String := ""
+  n : Nat := 0
+
+def logCap : Nat := 5000
+
+def Acc.add (a : Acc) (stamp : String) (os : List Out) : Acc :=
+  os.foldl (fun a o => if a.n < logCap then { s := a.s ++ showOut stamp o, n := a.n + 1 } else { a with n := a.n + 1 }) a
+
+def Acc.done (a : Acc) : String :=
+  let s := if a.n > logCap then a.s ++ s!"+{a.n - logCap}" else a.s
+  if s.isEmpty then "-" else s
+
+def showOuts (stamp : String) (os : List Out) : String := (Acc.add {} stamp os).done
 
 def fuelTick : Nat := 200000
 
 /-- the documented driving loop of the harness op `tickall` -/
-def tickAll (gran : Rat) : Nat → Nat → Rat → St → String → St × String × Nat × Rat
+def tickAll (gran : Rat) : Nat → Nat → Rat → St → Acc → St × Acc × Nat × Rat
   | 0, steps, d, st, acc => (st, acc, steps, d)
   | n + 1, steps, d, st, acc =>
     if st.seq.atEnd then (st, acc, steps, d) else
     let now := fadd st.now d
     let (s, outs, d') := tick st.seq d gran fuelTick
-    let acc := acc ++ String.join (outs.map (showOut (dyStr now)))
+    let acc := acc.add (dyStr now) outs
     tickAll gran n (steps + 1) d' { st with seq := s, now := now } acc
 
 /-- opn2_playFormat's period loop for one call of `chunk` samples (chunk even, > 0); returns samples produced and the log -/
-def playCall (st : St) (chunk : Nat) : Nat → Nat → Nat → Bool → St → String → St × Nat × String
+def playCall (st : St) (chunk : Nat) : Nat → Nat → Nat → Bool → St → Acc → St × Nat × Acc
   | 0, _, got, _, s, acc => (s, got, acc)
   | fuel + 1, left, got, hasSkipped, s, acc =>
     if left == 0 then (s, got, acc) else
@@ -91,10 +104,10 @@ def playCall (st : St) (chunk : Nat) : Nat → Nat → Nat → Bool → St → S
       playCall st chunk fuel left got (skip > 0) { s with skip := skip } acc
     else
       let (sq, outs, d') := tick s.seq eat mindelay fuelTick
-      let acc := acc ++ String.join (outs.map (showOut s!"f{s.frames}"))
+      let acc := acc.add s!"f{s.frames}" outs
       playCall st chunk fuel left got false { s with seq := sq, delay := d' } acc
 
-def playLog : Nat → Nat → Nat → Nat → Nat → St → String → St × Nat × Nat × String
+def playLog : Nat → Nat → Nat → Nat → Nat → St → Acc → St × Nat × Nat × Acc
   | 0, _, _, got, calls, s, acc => (s, got, calls, acc)
   | fuel + 1, total, chunk, got, calls, s, acc =>
     if got ≥ total then (s, got, calls, acc) else
@@ -121,20 +134,14 @@ def step (st : St) (ws : List String) : St × String :=
     match hexBytes? hex with
     | some b =>
       -- LoadMIDI_pre resets nothing of the sequencer; loadMIDI clears the song list
-      let st := { st with songs := [] }
+      let st := { st with songs := [], skip := 0 }      -- opn2_openData: tick_skip_samples_delay = 0
       if b.length ≥ 14 && b.take 4 == [77, 85, 83, 0x1A] then
         match Mus.convert b with
         | none => ({ st with now := 0, frames := 0 }, "ret=-1")
         | some mid => loadRes st (parseSMF st.seq .midi mid)
       else if b.length ≥ 14 && b.take 4 == [70, 79, 82, 77] && (b.drop 8).take 4 == [88, 68, 73, 82] then
-        match Xmi.convert b with
-        | none => ({ st with now := 0, frames := 0 }, "ret=-1")
-        | some songs =>
-          if songs.isEmpty then ({ st with now := 0, frames := 0 }, "ret=-1") else
-          let k : Int := if st.songNum ≥ (songs.length : Int) then (songs.length : Int) - 1 else st.songNum
-          let k := if k < 0 then 0 else k
-          let st := { st with songs := songs, songNum := k }
-          loadRes st (parseSMF st.seq .xmidi (songs.getD k.toNat []))
+        -- the AIL XMI converter is not modelled (DESIGN §5/C17): the model has no opinion until the next file it accepts
+        (st, "ret=?")
       else loadRes st (loadMidi st.seq b)
     | none => (st, "bad-op")
   | ["selectsong", n] =>
@@ -206,16 +213,16 @@ def step (st : St) (ws : List String) : St × String :=
   | ["tickall", n, g] =>
     match n.toNat?, parseDy g with
     | some n, some g =>
-      let (st, acc, steps, d) := tickAll g n 0 0 st ""
-      (st, s!"ret=steps={steps} end={if st.seq.atEnd then 1 else 0} T={dyStr st.now} last={dyStr d} tell={dyStr st.seq.cur.absTime} ev={emptyDash acc}")
+      let (st, acc, steps, d) := tickAll g n 0 0 st {}
+      (st, s!"ret=steps={steps} end={if st.seq.atEnd then 1 else 0} T={dyStr st.now} last={dyStr d} tell={dyStr st.seq.cur.absTime} ev={acc.done}")
     | _, _ => (st, "bad-op")
   | ["playlog", total, chunk] =>
     match total.toNat?, chunk.toNat? with
     | some total, some chunk =>
       let chunk := if chunk < 2 then 2 else if chunk > 65536 then 65536 else chunk
       let chunk := chunk - chunk % 2
-      let (st, got, calls, acc) := playLog 4000000 total chunk 0 0 st ""
-      (st, s!"ret=got={got} calls={calls} guard=ok end={if st.seq.atEnd then 1 else 0} ev={emptyDash acc}")
+      let (st, got, calls, acc) := playLog 4000000 total chunk 0 0 st {}
+      (st, s!"ret=got={got} calls={calls} guard=ok end={if st.seq.atEnd then 1 else 0} ev={acc.done}")
     | _, _ => (st, "bad-op")
   | ["seek", t] =>
     match parseDy t with
